@@ -49,6 +49,9 @@ Headers/TreeProps.vos Headers/TreeProps.vok Headers/TreeProps.required_vos: Head
 Headers/TreeExample.vo Headers/TreeExample.glob Headers/TreeExample.v.beautified Headers/TreeExample.required_vo: Headers/TreeExample.v Base/Prelude.vo Base/Compact.vo Headers/Tree.vo Headers/TreeBasics.vo Headers/TreeInv.vo Headers/TreeSteps.vo Headers/TreeProps.vo
 Headers/TreeExample.vio: Headers/TreeExample.v Base/Prelude.vio Base/Compact.vio Headers/Tree.vio Headers/TreeBasics.vio Headers/TreeInv.vio Headers/TreeSteps.vio Headers/TreeProps.vio
 Headers/TreeExample.vos Headers/TreeExample.vok Headers/TreeExample.required_vos: Headers/TreeExample.v Base/Prelude.vos Base/Compact.vos Headers/Tree.vos Headers/TreeBasics.vos Headers/TreeInv.vos Headers/TreeSteps.vos Headers/TreeProps.vos
+Headers/TreeLocator.vo Headers/TreeLocator.glob Headers/TreeLocator.v.beautified Headers/TreeLocator.required_vo: Headers/TreeLocator.v Base/Prelude.vo Base/Compact.vo Headers/Tree.vo Headers/TreeBasics.vo Headers/TreeInv.vo Headers/TreeSteps.vo Headers/TreeStream.vo Headers/TreeProps.vo Blocks/Merkle.vo
+Headers/TreeLocator.vio: Headers/TreeLocator.v Base/Prelude.vio Base/Compact.vio Headers/Tree.vio Headers/TreeBasics.vio Headers/TreeInv.vio Headers/TreeSteps.vio Headers/TreeStream.vio Headers/TreeProps.vio Blocks/Merkle.vio
+Headers/TreeLocator.vos Headers/TreeLocator.vok Headers/TreeLocator.required_vos: Headers/TreeLocator.v Base/Prelude.vos Base/Compact.vos Headers/Tree.vos Headers/TreeBasics.vos Headers/TreeInv.vos Headers/TreeSteps.vos Headers/TreeStream.vos Headers/TreeProps.vos Blocks/Merkle.vos
 Blocks/Reach.vo Blocks/Reach.glob Blocks/Reach.v.beautified Blocks/Reach.required_vo: Blocks/Reach.v Base/Prelude.vo
 Blocks/Reach.vio: Blocks/Reach.v Base/Prelude.vio
 Blocks/Reach.vos Blocks/Reach.vok Blocks/Reach.required_vos: Blocks/Reach.v Base/Prelude.vos
@@ -124,3 +127,9 @@ Props/C16.vos Props/C16.vok Props/C16.required_vos: Props/C16.v Base/Prelude.vos
 Props/C04.vo Props/C04.glob Props/C04.v.beautified Props/C04.required_vo: Props/C04.v Base/Prelude.vo Blocks/Merkle.vo Blocks/MerkleProofs.vo Blocks/BlockHandler.vo Blocks/BlockHandlerProofs.vo
 Props/C04.vio: Props/C04.v Base/Prelude.vio Blocks/Merkle.vio Blocks/MerkleProofs.vio Blocks/BlockHandler.vio Blocks/BlockHandlerProofs.vio
 Props/C04.vos Props/C04.vok Props/C04.required_vos: Props/C04.v Base/Prelude.vos Blocks/Merkle.vos Blocks/MerkleProofs.vos Blocks/BlockHandler.vos Blocks/BlockHandlerProofs.vos
+Props/C18.vo Props/C18.glob Props/C18.v.beautified Props/C18.required_vo: Props/C18.v Base/Prelude.vo Base/Compact.vo Headers/Tree.vo Headers/TreeBasics.vo Headers/TreeInv.vo Headers/TreeSteps.vo Headers/TreeStream.vo Headers/TreeProps.vo Headers/TreeExample.vo Headers/TreeLocator.vo Blocks/Merkle.vo Blocks/MerkleProofs.vo
+Props/C18.vio: Props/C18.v Base/Prelude.vio Base/Compact.vio Headers/Tree.vio Headers/TreeBasics.vio Headers/TreeInv.vio Headers/TreeSteps.vio Headers/TreeStream.vio Headers/TreeProps.vio Headers/TreeExample.vio Headers/TreeLocator.vio Blocks/Merkle.vio Blocks/MerkleProofs.vio
+Props/C18.vos Props/C18.vok Props/C18.required_vos: Props/C18.v Base/Prelude.vos Base/Compact.vos Headers/Tree.vos Headers/TreeBasics.vos Headers/TreeInv.vos Headers/TreeSteps.vos Headers/TreeStream.vos Headers/TreeProps.vos Headers/TreeExample.vos Headers/TreeLocator.vos Blocks/Merkle.vos Blocks/MerkleProofs.vos
+Props/C19.vo Props/C19.glob Props/C19.v.beautified Props/C19.required_vo: Props/C19.v Base/Prelude.vo Base/Compact.vo Headers/Tree.vo Headers/TreeBasics.vo Headers/TreeInv.vo Headers/TreeSteps.vo Headers/TreeStream.vo Headers/TreeProps.vo Headers/TreeExample.vo Headers/TreeLocator.vo Blocks/Merkle.vo Blocks/MerkleProofs.vo
+Props/C19.vio: Props/C19.v Base/Prelude.vio Base/Compact.vio Headers/Tree.vio Headers/TreeBasics.vio Headers/TreeInv.vio Headers/TreeSteps.vio Headers/TreeStream.vio Headers/TreeProps.vio Headers/TreeExample.vio Headers/TreeLocator.vio Blocks/Merkle.vio Blocks/MerkleProofs.vio
+Props/C19.vos Props/C19.vok Props/C19.required_vos: Props/C19.v Base/Prelude.vos Base/Compact.vos Headers/Tree.vos Headers/TreeBasics.vos Headers/TreeInv.vos Headers/TreeSteps.vos Headers/TreeStream.vos Headers/TreeProps.vos Headers/TreeExample.vos Headers/TreeLocator.vos Blocks/Merkle.vos Blocks/MerkleProofs.vos
